@@ -195,6 +195,104 @@ def _near_singular(res, rng):
                                           f"for an activity index within {d:.0e} of {y0:g}", rep)
 
 
+class PlainMeasure:
+    """a LevyMeasure WITHOUT closed forms (only __call__): exercises the generic scipy.quad fall-backs of levymodel.py:81-110"""
+
+    def __new__(cls, inner):
+        from rpylib.model.levymodel.levymodel import LevyMeasure
+
+        class _Plain(LevyMeasure):
+            def __init__(self, inner_):
+                self.inner = inner_
+
+            def __call__(self, x):
+                return self.inner(x)
+
+            def jump_of_finite_activity(self):
+                return True
+
+            def jump_of_finite_variation(self):
+                return True
+
+            def blumenthal_getoor_index(self):
+                return 0.0
+        return _Plain(inner)
+
+
+def _misc_oracle(res, rng):
+    """(a) generic quadrature fall-backs of LevyMeasure (a measure that only defines its density);
+       (b) a > b: every family either raises ValueError or returns minus the integral over [b, a] (orientation), never anything else;
+       (c) parameters that make the density negative must be refused (HEM p outside [0,1])."""
+    # (a)
+    for kind, gen in (("hem", L.hem_params), ("merton", L.merton_params)):
+        for _ in range(2 if res.tier == "quick" else 6):
+            params = gen(rng)
+            _, nu = L.build(kind, params)
+            plain = PlainMeasure(nu)
+            for ikind in ("pos", "neg", "right-halfline", "left-halfline", "point"):
+                a, b = L.interval(rng, ikind)
+                for n in range(4):
+                    for via in (["direct", "xn"] if n <= 2 else ["xn"]):
+                        ref = L.quad_xn_nu(nu, a, b, n)
+                        res.count(("generic", kind, tuple(sorted(params.items())), a, b, n, via), kind="oracle generic quadrature fall-back")
+                        rep = dict(kind="generic-fallback", model=kind, params=params, a=a, b=b, n=n, via=via, expected_quadrature=ref)
+                        try:
+                            val = float(L.call_integral(plain, a, b, n, via))
+                        except Exception as e:  # noqa
+                            rep["raised"] = f"{type(e).__name__}: {e}"
+                            res.violation("generic LevyMeasure quadrature fall-back raises on a valid interval", rep)
+                            continue
+                        if not L.close(val, ref, rel=1e-6, ab=1e-7):
+                            rep["got"] = val
+                            res.violation("generic LevyMeasure quadrature fall-back differs from the quadrature of the density", rep)
+            for f in (plain.integrate, plain.integrate_against_x, plain.integrate_against_xx, lambda a, b: plain.integrate_against_xn(a, b, 3)):
+                try:
+                    f(1.0, 0.5)
+                    res.violation("generic LevyMeasure.integrate*(a,b) with a > b does not raise", dict(kind="order", model="generic"))
+                except ValueError:
+                    pass
+    # (b)
+    for kind, params in L.model_sets(rng, 1):
+        _, nu = L.build(kind, params)
+        for (a, b) in ((0.3, 1.2), (-1.1, -0.2)):
+            for n in range(4):
+                for via in (["direct", "xn"] if n <= 2 else ["xn"]):
+                    if not L.integral_is_finite(kind, params, a, b, n):
+                        continue
+                    fwd = float(L.call_integral(nu, a, b, n, via))
+                    res.count(("order", kind, tuple(sorted(params.items())), a, b, n, via), kind="oracle a > b raises or is orientation-consistent")
+                    try:
+                        rev = float(L.call_integral(nu, b, a, n, via))
+                    except ValueError:
+                        res.bump("a>b", f"{kind}: ValueError")
+                        continue
+                    except Exception as e:  # noqa
+                        res.violation(f"{kind}: integrate*(a,b) with a > b raises {type(e).__name__}",
+                                      dict(kind="order", model=kind, params=params, a=b, b=a, n=n, via=via, raised=str(e)))
+                        continue
+                    res.bump("a>b", f"{kind}: minus the integral over [b,a]")
+                    if not L.close(rev, -fwd, rel=1e-6, ab=1e-7):
+                        res.violation(f"{kind}: integrate*(a,b) with a > b neither raises nor returns minus the integral over [b,a]",
+                                      dict(kind="order", model=kind, params=params, a=b, b=a, n=n, via=via, got=rev, forward=fwd))
+    # (c)
+    from rpylib.model.levymodel.mixed.hem import HEMParameters
+    for p in (1.5, 1.0001, -0.2):
+        res.count(("domain", "hem", p), kind="oracle parameter domain")
+        try:
+            hp = HEMParameters(sigma=0.1, p=p, eta1=8.0, eta2=4.0, intensity=2.0)
+        except ValueError:
+            continue
+        _, nu = L.build("hem", dict(sigma=0.1, p=p, eta1=8.0, eta2=4.0, intensity=2.0))
+        res.violation("hem: parameters with p outside [0,1] are accepted: the Levy density is negative on one side",
+                      dict(kind="domain", model="hem", p=p, density_at_minus_0_1=float(nu(-0.1)), density_at_0_1=float(nu(0.1)), finding="F-C09-10"))
+    for kind, params in L.model_sets(rng, 1):
+        _, nu = L.build(kind, params)
+        for x in (-1.3, -0.2, -0.01, 0.01, 0.2, 1.3):
+            res.count(("density>=0", kind, tuple(sorted(params.items())), x), kind="oracle density non-negative")
+            if not float(nu(x)) >= 0.0:
+                res.violation(f"{kind}: the Levy density is negative", dict(kind="density-sign", model=kind, params=params, x=x, got=float(nu(x))))
+
+
 def _rebuilt_oracle(res, rng):
     """models REBUILT the way the library's calibration builds them (rpylib/model/utils.py): deep copy of the parameters, one
     attribute set to a new value, initialisation(), construction of the model -- every parameter of every family in turn.
@@ -234,19 +332,66 @@ def _rebuilt_oracle(res, rng):
                                     v["replay"].pop("finding", None)
 
 
+def _emul_tail(alpha, h, u):
+    """harness copy, in the same double arithmetic and operation order, of cgmy.py __integrate_h_to_inf"""
+    import numpy as np
+    import scipy.special as sp
+    uh = u * h
+    if alpha == 0:
+        return sp.exp1(uh)
+    if h == 0 and alpha < 0:
+        return sp.gamma(-alpha) * u ** alpha
+    expmuh = np.exp(-uh)
+    if alpha >= 1:
+        return expmuh / (alpha * h ** alpha) - (u / alpha) * _emul_tail(alpha - 1, h, u)
+    g2malpha = sp.gamma(2 - alpha)
+    ginccuh = sp.gammaincc(2 - alpha, uh)
+    return (expmuh * (1 + uh / (1 - alpha)) - (uh ** alpha) * g2malpha * ginccuh / (1 - alpha)) / (alpha * (h ** alpha))
+
+
+def _emul_tail_x(alpha, h, u):
+    """harness copy of cgmy.py __integrate_h_to_inf_for_xx"""
+    import numpy as np
+    import scipy.special as sp
+    uh = u * h
+    if alpha == 1.0:
+        return sp.exp1(uh)
+    expmuh = np.exp(-uh)
+    return (h ** (1 - alpha) * expmuh - u ** (alpha - 1) * sp.gamma(2 - alpha) * sp.gammaincc(2 - alpha, uh)) / (alpha - 1)
+
+
+def _emul_cgmy(params, a, b, n):
+    """the value cgmy.py's closed form takes in double arithmetic on a one-sided interval (mass n = 0, first moment n = 1)"""
+    c, g, m, y = params["c"], params["g"], params["m"], params["y"]
+    if n == 0:
+        if a > 0:
+            return c * _emul_tail(y, a, m) if b == INF else c * _emul_tail(y, a, m) - c * _emul_tail(y, b, m)
+        return c * _emul_tail(y, -b, g) if a == -INF else c * _emul_tail(y, -b, g) - c * _emul_tail(y, -a, g)
+    if a >= 0:
+        return c * _emul_tail_x(y, a, m) if b == INF else c * (_emul_tail_x(y, a, m) - _emul_tail_x(y, b, m))
+    return -c * _emul_tail_x(y, -b, g) if a == -INF else c * (_emul_tail_x(y, -a, g) - _emul_tail_x(y, -b, g))
+
+
 def matches_known(v, known):
     """a recorded finding explains only the failures it predicts"""
     r = v["replay"]
     if known["id"] == "F-C09-7":
-        # float cancellation at the removable singularities y = 0 / y = 1 of the CGMY closed forms: the error is bounded by a few
-        # ulps of the cancelling terms divided by the distance to the singularity; anything larger is something else
-        if r.get("model") != "cgmy" or "got" not in r or r.get("truncations"):
+        # float cancellation at the removable singularities y = 0 / y = 1 of the CGMY closed forms.  The observed value must be the
+        # one the code's OWN formula produces in double arithmetic (harness copy of the formula, same operation order): a different
+        # formula (a series branch returning 0, a sign slip ...) does not reproduce it and stays an unlisted violation.
+        if r.get("model") != "cgmy" or "got" not in r or r.get("truncations") or r.get("n") not in (0, 1):
             return False
-        y = r["params"]["y"]
+        y, a, b = r["params"]["y"], float(r["a"]), float(r["b"])
         d = min(abs(y), abs(y - 1.0))
-        if not (0 < d <= 1e-2):
+        if not (0 < d <= 1.001e-3) or a < 0 < b or a == 0 or b == 0:
             return False
-        return abs(r["got"] - r["expected_quadrature"]) <= 2e-13 / d * max(r.get("cancellation_scale", 0.0), 1e-300)
+        try:
+            emul = float(_emul_cgmy(r["params"], a, b, r["n"]))
+        except Exception:  # noqa
+            return False
+        ref = r["expected_quadrature"]
+        err_emul = emul - ref
+        return abs(err_emul) > 1e-6 * abs(ref) and abs(r["got"] - emul) <= 0.05 * abs(err_emul)
     return False
 
 
@@ -317,19 +462,24 @@ def _oracle(res, rng):
         from rpylib.model.levymodel.levymodel import TruncatedLevyMeasure
         for _ in range(2 * cfg["reps"]):
             l, r = -L._pt(rng), L._pt(rng)
-            shape = rng.choice(["around0", "around0", "positive", "negative"])
+            shape = rng.choice(["around0", "around0", "positive", "negative", "edge-at-zero"])
             if shape == "positive":
                 l, r = sorted((abs(l), r + abs(l) + 0.125))
             elif shape == "negative":
                 l, r = sorted((-r - abs(l) - 0.125, l))
+            elif shape == "edge-at-zero":
+                l, r = rng.choice([(0.0, r), (l, 0.0)])
             tnu = TruncatedLevyMeasure(nu, (l, r))
             res.bump("truncation_shape", shape)
             for x in (l - 0.5, l - 1e-9, r + 1e-9, r + 0.5):
                 if tnu(x) != 0.0:
                     res.violation("truncated density does not vanish outside its truncation interval",
                                   dict(kind="trunc-density", model=kind, params=params, truncations=[l, r], x=x, got=float(tnu(x))))
-            for ikind in rng.sample(L.INTERVAL_KINDS, 5):
-                a, b = L.interval(rng, ikind)
+            for ikind in rng.sample(L.INTERVAL_KINDS, 5) + ["disjoint"]:
+                if ikind == "disjoint":     # an interval that does not meet the truncation: the integral is 0
+                    a, b = (r + 0.5, r + 1.5) if rng.random() < 0.5 else (l - 2.0, l - 1.0)
+                else:
+                    a, b = L.interval(rng, ikind)
                 for n in range(4):
                     for via in (["direct", "xn"] if n <= 2 else ["xn"]):
                         _check_one(res, kind, params, tnu, a, b, n, via, "trunc:" + ikind, trunc=(l, r))
@@ -362,6 +512,13 @@ def _oracle(res, rng):
 # ============================================================================================ Coq correspondence
 HEADER = L.HEADER_COMMON + """From RV Require Import Base.RB Base.RSpecial Gen.GenC09Hem Gen.GenC09Vg Gen.GenC09Merton Gen.GenC09Trunc Model.LevyClosedForms
   Proofs.C09_Generic Proofs.C09_Hem Proofs.C09_XnExp Proofs.C09_Vg Proofs.C09_Merton Proofs.C09_Cgmy.
+Lemma Reqb_eq x y : x = y -> Reqb x y = true.
+Proof. intros ->. apply Reqb_same. Qed.
+Ltac code_bool := repeat match goal with
+  | |- context [Reqb ?x ?y] => first [rewrite (Reqb_eq x y) by lra | rewrite (Reqb_ne x y) by lra]
+  | |- context [Rleb ?x ?y] => first [replace (Rleb x y) with true by (symmetry; apply Rleb_true; lra)
+                                     | replace (Rleb x y) with false by (symmetry; apply Rleb_false; lra)]
+  end.
 Ltac xn_unfold := cbv [xn_helper helper_sum_fact_xk sum_pow_over_fact sgn_even fact Nat.even Nat.sub Nat.add Nat.mul
                        Init.Nat.add Init.Nat.mul INR negb].
 """
@@ -587,6 +744,41 @@ def _cgmy_value_cases(res, rng, per_group):
     return cases
 
 
+def _cgmy_code_value_cases(res, rng, per_group):
+    """the executed BRANCH STRUCTURE (cgmy_tail_code / cgmy_tail_x_code: y = 0, y = 1, the y > 1 recursion) unfolded and evaluated
+    against the code's VALUE, with the special-function values exp1(u h) and gamma(s)*gammaincc(s, u h) the code computes fed in
+    as data: ties the branch selection (Reqb alpha 0, Rleb 1 alpha, Reqb (alpha-1) 0, Reqb alpha 1) to cgmy.py:225-236/280-283"""
+    import scipy.special as sp
+    cases = []
+    for kindk in ("pos", "neg"):
+        for (n, y) in [(0, 0.0), (0, 1.0), (0, 1.5), (0, L.rnd(rng, 1.05, 1.9)), (1, 1.0)][: max(3, per_group)] + [(0, 1.25)]:
+            params = L.cgmy_params(rng, y=y)
+            _, nu = L.build("cgmy", params)
+            a, b = L.interval(rng, kindk)
+            v = float(L.call_integral(nu, a, b, n, "direct"))
+            u = params["m"] if kindk == "pos" else params["g"]
+            hs = [(rlit(a), a), (rlit(b), b)] if kindk == "pos" else [(f"- {rlit(b)}", -b), (f"- {rlit(a)}", -a)]
+            hyps, names = [], []
+            if (n == 0 and y in (0.0, 1.0)) or (n == 1 and y == 1.0):
+                for k, (hl, hv) in enumerate(hs):
+                    hyps.append(f"E1 ({rlit(u)} * {hl}) = {rlit(float(sp.exp1(u * hv)))}")
+                    names.append(f"HE{k}")
+            else:   # n == 0, 1 < y < 2: the inner call has alpha - 1 in (0, 1)
+                am1 = y - 1
+                for k, (hl, hv) in enumerate(hs):
+                    hyps.append(f"G (2 - ({rlit(y)} - 1)) ({rlit(u)} * {hl}) = {rlit(float(sp.gamma(2 - am1) * sp.gammaincc(2 - am1, u * hv)))}")
+                    names.append(f"HG{k}")
+            f = ["cgmy_mass", "cgmy_x"][n] + ("_pos_code" if kindk == "pos" else "_neg_code")
+            stmt = ("forall (E1 : R -> R) (G : R -> R -> R), " + " -> ".join(hyps) + " -> "
+                    f"Rabs ({f} E1 G {rlit(params['c'])} {rlit(u)} {rlit(y)} {rlit(a)} {rlit(b)} - {rlit(v)}) <= {tol_lit(v, rel=1e-8)[0]}")
+            proof = (f"intros E1 G {' '.join(names)}. unfold {f}, cgmy_tail_code, cgmy_tail_x_code, cgmy_tail. cbv beta iota zeta. code_bool. "
+                     f"rewrite {', '.join('?' + x for x in names)}. {I80}")
+            cases.append(Case(("cgmy-code-value", n, kindk, y), stmt, proof, dict(model="cgmy", params=params, a=a, b=b, n=n, impl=v)))
+            res.count(("coq-cgmy-code-value", tuple(sorted(params.items())), a, b, n), kind="coq cgmy branch structure vs code value")
+            res.bump("coq_cgmy_code_value_activity", _act(y))
+    return cases
+
+
 def _density_cases(res, rng, per_group):
     """the model densities against the implementation's __call__ (HEM, VG, Merton generated; CGMY hand-written; truncated)"""
     from rpylib.model.levymodel.levymodel import TruncatedLevyMeasure
@@ -658,8 +850,12 @@ def _truncated_hem_cases(res, rng, per_group):
             br = f"rewrite {f}_neg by lra."
         else:
             br = f"rewrite {f}_pos by lra."
-        proof = ("unfold truncated_integrate. replace (Rltb _ _) with false by (symmetry; apply Rltb_false; lra). "
-                 "rewrite truncated_interval_eq. " + " ".join(steps) + f" {br} {I80}")
+        if aa == bb:
+            proof = ("unfold truncated_integrate. replace (Rltb _ _) with false by (symmetry; apply Rltb_false; lra). "
+                     "rewrite truncated_interval_eq. " + " ".join(steps) + f" rewrite Reqb_same. {I80}")
+        else:
+            proof = ("unfold truncated_integrate. replace (Rltb _ _) with false by (symmetry; apply Rltb_false; lra). "
+                     "rewrite truncated_interval_eq. " + " ".join(steps) + f" rewrite Reqb_ne by lra. {br} {I80}")
         cases.append(Case(("trunc-hem", n, l, r, a, b), stmt, proof, dict(model="hem", params=params, truncations=[l, r], a=a, b=b, n=n, impl=v)))
         res.count(("coq-trunc-hem", tuple(sorted(params.items())), l, r, a, b, n), kind="coq truncated hem")
     return cases
@@ -669,7 +865,7 @@ def _coq(res, rng):
     cfg = _cfg(res)
     k = cfg["coq_per_group"]
     cases = (_hem_cases(res, rng, k) + _trunc_cases(res, rng, k) + _xn_exp_cases(res, rng, max(2, k // 2)) + _vg_cases(res, rng, max(2, k // 2))
-             + _merton_cases(res, rng, max(2, k // 2)) + _cgmy_cases(res, rng, max(3, k // 4)) + _cgmy_value_cases(res, rng, max(3, k // 2))
+             + _merton_cases(res, rng, max(2, k // 2)) + _cgmy_cases(res, rng, max(3, k // 4)) + _cgmy_value_cases(res, rng, max(3, k // 2)) + _cgmy_code_value_cases(res, rng, max(3, k // 8))
              + _density_cases(res, rng, max(2, k // 3)) + _truncated_hem_cases(res, rng, max(2, k // 2)))
     hdr = HEADER
     nfiles, failed = L.run_cases(PROP, "cases", hdr, cases, jobs=12, timeout=600)
@@ -687,6 +883,7 @@ def correspond(res):
     _oracle(res, rng)
     _near_singular(res, random.Random(res.seed + 3))
     _rebuilt_oracle(res, random.Random(res.seed + 5))
+    _misc_oracle(res, random.Random(res.seed + 6))
     _coq(res, random.Random(res.seed + 1))
 
 
